@@ -1,4 +1,4 @@
-package purea_dev
+package auth
 
 import (
 	"testing"
